@@ -1561,4 +1561,299 @@ theorem dgramsOf_genMsg (r : Trx) (m : Trxd.RxMsg) (l : Bool) :
     · intro h; cases h
     rw [Codec.genMsg_err_of_validate m l e hv]; rfl
 
+/-! ### the NOPE indication -/
+
+section
+open OsmoVerif.Trxd
+/-- octets of a NOPE.ind on a version-1 link: header, RSSI 110, ToA256 0, MTS 0x80, C/I −30 -/
+theorem isNope_genMsg (cm : RxMsg) (fn tn : Int) (l : Bool) (h : Spec.IsNope 1 (some fn) (some tn) cm)
+    (f0 : 0 ≤ fn) (f1 : fn < 2715648) (t0 : 0 ≤ tn) (t1 : tn ≤ 7) :
+    cm.validate = .ok () ∧ cm.genMsg l = .ok (Spec.nopeOctets fn.toNat tn.toNat) := by
+  obtain ⟨ver, fn', tn', rssi, toa, mod, nope, set, tsc, ci, burst⟩ := cm
+  obtain ⟨h1, h2, h3, h4, h5, h6, h7, h8⟩ := h
+  dsimp only at h1 h2 h3 h4 h5 h6 h7 h8
+  subst h1 h2 h3 h4 h5 h6 h7 h8
+  have hc : validateCommon 1 (some fn) (some tn) = .ok () := by
+    unfold validateCommon
+    have a : ¬ (fn < 0 ∨ fn ≥ Gen.Trxd.gsmHyperframe) := by simp only [Gen.Trxd.gsmHyperframe]; omega
+    have b : ¬ (tn < 0 ∨ tn > 7) := by omega
+    have c : Gen.Trxd.knownVersions.contains (1 : Int) = true := by decide
+    simp only [a, b, c, not_true, if_false]
+  have hv : RxMsg.validate ⟨1, some fn, some tn, some (-110), some 0, mod, true, set, tsc, some (-30), none⟩ = .ok () := by
+    unfold RxMsg.validate
+    rw [hc]
+    rfl
+  refine ⟨hv, ?_⟩
+  unfold RxMsg.genMsg
+  rw [hv]
+  have hg : genCommon 1 (some fn) (some tn) = .ok [16 + tn.toNat, fn.toNat / 16777216 % 256,
+      fn.toNat / 65536 % 256, fn.toNat / 256 % 256, fn.toNat % 256] := by
+    unfold genCommon
+    dsimp only
+    rw [Codec.bytearrayAppend_ok _ _ (by omega) (by omega)]
+    dsimp only
+    unfold packBE32u
+    rw [if_pos ⟨f0, by omega⟩]
+    have : (16 * 1 + tn % 8).toNat = 16 + tn.toNat := by omega
+    simp only [this, List.nil_append, List.cons_append]
+  rw [hg]
+  have ha : RxMsg.appendHdrTo ⟨1, some fn, some tn, some (-110), some 0, mod, true, set, tsc, some (-30), none⟩
+      [16 + tn.toNat, fn.toNat / 16777216 % 256, fn.toNat / 65536 % 256, fn.toNat / 256 % 256, fn.toNat % 256]
+      = .ok (Spec.nopeOctets fn.toNat tn.toNat) := by
+    unfold RxMsg.appendHdrTo
+    dsimp only
+    rw [Codec.bytearrayAppend_ok _ _ (by decide) (by decide)]
+    rfl
+  dsimp only
+  rw [ha]
+  dsimp only
+  have : ¬ ((l = true) ∧ (1 : Int) = 0) := by omega
+  simp only [this, if_false]
+end
+
+/-! ### a stream of bursts handed to one receiving transceiver (C18) -/
+
+/-- one entry of the stream: sender index, the sender's message, the message `trans()` made of it -/
+abbrev Burst := Nat × Trxd.TxMsg × Trxd.RxMsg
+
+/-- `handle_data_msg` of transceiver `k` for every burst of the stream, world threaded; the
+result lists the datagrams emitted per burst -/
+def handleStream (k : Nat) : World → List Burst → Except Exc (World × List (List Dgram))
+  | w, [] => .ok (w, [])
+  | w, (j, s, m) :: rest =>
+    match handleDataMsg w k j s m with
+    | .error e => .error e
+    | .ok (w, ds) =>
+      match handleStream k w rest with
+      | .error e => .error e
+      | .ok (w, outs) => .ok (w, ds :: outs)
+
+/-- one burst with the suppression decision prescribed: `true` = the NOPE branch and one drop
+consumed, `false` = forwarded normally (completion branch) -/
+def planStep (k : Nat) (w : World) (drop : Bool) (b : Burst) : Except Exc (World × List Dgram) :=
+  match w.trxs[k]?, w.trxs[b.1]? with
+  | some self, some src =>
+    if drop then
+      match suppressOut self b.2.2 with
+      | .ok ds => .ok (decDrop w k, ds)
+      | .error e => .error e
+    else passOn w self src b.2.1 b.2.2
+  | _, _ => .error .indexError
+
+/-- the stream with the decision for every burst prescribed by a plan -/
+def planStream (k : Nat) : World → List (Bool × Burst) → Except Exc (World × List (List Dgram))
+  | w, [] => .ok (w, [])
+  | w, (d, b) :: rest =>
+    match planStep k w d b with
+    | .error e => .error e
+    | .ok (w, ds) =>
+      match planStream k w rest with
+      | .error e => .error e
+      | .ok (w, outs) => .ok (w, ds :: outs)
+
+theorem dropDue_iff (r : Trx) (fn : Int) (n seen : Nat) (h : r.dropAmount = ((n - seen : Nat) : Int)) :
+    Spec.dropDue r fn = (decide (r.dropPeriod ∣ fn) && decide (seen < n)) := by
+  unfold Spec.dropDue
+  have : (0 < r.dropAmount) ↔ seen < n := by omega
+  simp only [this, Bool.and_comm]
+
+theorem drop_exact_aux (k : Nat) (n : Nat) (p : Int) (hp : 1 ≤ p) :
+    ∀ (stream : List Burst) (fns : List Int) (w : World) (tk : Trx) (seen : Nat),
+      w.trxs[k]? = some tk → tk.rfMuted = false → tk.dropPeriod = p →
+      tk.dropAmount = ((n - seen : Nat) : Int) →
+      (∀ b ∈ stream, b.2.2.nopeInd = false) →
+      stream.map (fun b => b.2.2.fn) = fns.map some →
+      handleStream k w stream = planStream k w ((Spec.dropPlanFrom n p seen fns).zip stream) := by
+  intro stream
+  induction stream with
+  | nil =>
+    intro fns w tk seen _ _ _ _ _ _
+    simp only [handleStream, List.zip_nil_right, planStream]
+  | cons b rest ih =>
+    intro fns w tk seen hk hm hper hamt hnope hfns
+    obtain ⟨j, s, m⟩ := b
+    cases fns with
+    | nil => simp at hfns
+    | cons fn fns =>
+      simp only [List.map_cons, List.cons.injEq] at hfns
+      obtain ⟨hfn, hfns⟩ := hfns
+      have hn0 : m.nopeInd = false := hnope _ (List.mem_cons_self ..)
+      have hnope' : ∀ b ∈ rest, b.2.2.nopeInd = false := fun b hb => hnope b (List.mem_cons_of_mem _ hb)
+      have hwf : Spec.DropWF tk := ⟨by omega, by omega⟩
+      cases hj : w.trxs[j]? with
+      | none =>
+        have e1 : handleDataMsg w k j s m = .error .indexError := by
+          rw [handleDataMsg_eq, hk, hj]
+        have e2 : ∀ d, planStep k w d (j, s, m) = .error .indexError := by
+          intro d; simp only [planStep, hk, hj]
+        unfold Spec.dropPlanFrom
+        split <;> simp only [handleStream, e1, List.zip_cons_cons, planStream, e2]
+      | some src =>
+        have hlive := handleDataMsg_live w k j s m tk src fn hk hj hm hn0 hfn hwf
+        have hdue := dropDue_iff tk fn n seen hamt
+        rw [hper] at hdue
+        unfold Spec.dropPlanFrom
+        by_cases hdvd : p ∣ fn
+        · rw [if_pos hdvd]
+          by_cases hlt : seen < n
+          · -- a simulated loss
+            have hd : Spec.dropDue tk fn = true := by rw [hdue]; simp [hdvd, hlt]
+            rw [if_pos hd] at hlive
+            have e2 : planStep k w true (j, s, m) =
+                (match suppressOut tk m with
+                 | .ok ds => .ok (decDrop w k, ds)
+                 | .error e => .error e) := by
+              simp only [planStep, hk, hj, if_true]
+            simp only [handleStream, hlive, hlt, decide_true, List.zip_cons_cons, planStream, e2]
+            cases suppressOut tk m with
+            | error e => rfl
+            | ok ds =>
+              dsimp only
+              have hk' : (decDrop w k).trxs[k]? = some { tk with dropAmount := tk.dropAmount - 1 } := by
+                rw [decDrop_getElem?, if_pos rfl, hk]; rfl
+              rw [ih fns (decDrop w k) _ (seen + 1) hk' hm hper (by dsimp only; omega) hnope' hfns]
+          · -- the drops are used up
+            have hd : ¬ Spec.dropDue tk fn = true := by rw [hdue]; simp [hlt]
+            rw [if_neg hd] at hlive
+            have e2 : planStep k w false (j, s, m) = passOn w tk src s m := by
+              simp only [planStep, hk, hj, Bool.false_eq_true, if_false]
+            simp only [handleStream, hlive, hlt, decide_false, List.zip_cons_cons, planStream, e2]
+            cases hpo : passOn w tk src s m with
+            | error e => rfl
+            | ok r =>
+              obtain ⟨w1, ds⟩ := r
+              dsimp only
+              obtain ⟨_, _, hdo, _⟩ := passOn_ok _ _ _ _ _ _ _ hpo
+              have hk' : w1.trxs[k]? = some tk := by rw [hdo.trxs]; exact hk
+              rw [ih fns w1 tk (seen + 1) hk' hm hper (by omega) hnope' hfns]
+        · rw [if_neg hdvd]
+          have hd : ¬ Spec.dropDue tk fn = true := by rw [hdue]; simp [hdvd]
+          rw [if_neg hd] at hlive
+          have e2 : planStep k w false (j, s, m) = passOn w tk src s m := by
+            simp only [planStep, hk, hj, Bool.false_eq_true, if_false]
+          simp only [handleStream, hlive, List.zip_cons_cons, planStream, e2]
+          cases hpo : passOn w tk src s m with
+          | error e => rfl
+          | ok r =>
+            obtain ⟨w1, ds⟩ := r
+            dsimp only
+            obtain ⟨_, _, hdo, _⟩ := passOn_ok _ _ _ _ _ _ _ hpo
+            have hk' : w1.trxs[k]? = some tk := by rw [hdo.trxs]; exact hk
+            rw [ih fns w1 tk seen hk' hm hper hamt hnope' hfns]
+
+/-! ### the drop plan (pure list facts about `Spec.dropPlan`) -/
+
+theorem dropPlanFrom_length (n : Nat) (p : Int) : ∀ (fns : List Int) (seen : Nat),
+    (Spec.dropPlanFrom n p seen fns).length = fns.length := by
+  intro fns
+  induction fns with
+  | nil => intro _; rfl
+  | cons fn fns ih =>
+    intro seen
+    unfold Spec.dropPlanFrom
+    split <;> simp only [List.length_cons, ih]
+
+/-- burst `i` is suppressed iff its frame number is a multiple of the period and fewer than `n`
+earlier bursts of the stream were (counting `seen` from before the stream) -/
+theorem dropPlanFrom_getElem (n : Nat) (p : Int) : ∀ (fns : List Int) (seen i : Nat),
+    (Spec.dropPlanFrom n p seen fns)[i]? = some true ↔
+      ∃ fn, fns[i]? = some fn ∧ p ∣ fn ∧ seen + (fns.take i).countP (fun f => decide (p ∣ f)) < n := by
+  intro fns
+  induction fns with
+  | nil => intro seen i; simp [Spec.dropPlanFrom]
+  | cons fn fns ih =>
+    intro seen i
+    unfold Spec.dropPlanFrom
+    cases i with
+    | zero =>
+      by_cases hd : p ∣ fn
+      · simp [hd]
+      · simp [hd]
+    | succ i =>
+      by_cases hd : p ∣ fn
+      · simp only [hd, if_true, List.getElem?_cons_succ, ih, List.take_succ_cons, List.countP_cons,
+          decide_true]
+        constructor
+        · rintro ⟨f, h1, h2, h3⟩; exact ⟨f, h1, h2, by omega⟩
+        · rintro ⟨f, h1, h2, h3⟩; exact ⟨f, h1, h2, by omega⟩
+      · simp only [hd, if_false, List.getElem?_cons_succ, ih, List.take_succ_cons, List.countP_cons,
+          decide_false, Bool.false_eq_true, Nat.add_zero]
+
+/-- number of suppressed bursts: `n`, or all multiples of the period if there are fewer -/
+theorem dropPlanFrom_count (n : Nat) (p : Int) : ∀ (fns : List Int) (seen : Nat),
+    (Spec.dropPlanFrom n p seen fns).count true =
+      min (n - seen) (fns.countP (fun f => decide (p ∣ f))) := by
+  intro fns
+  induction fns with
+  | nil => intro seen; simp [Spec.dropPlanFrom]
+  | cons fn fns ih =>
+    intro seen
+    unfold Spec.dropPlanFrom
+    by_cases hd : p ∣ fn
+    · by_cases hlt : seen < n
+      · simp only [hd, if_true, hlt, decide_true, List.count_cons_self, ih, List.countP_cons]
+        omega
+      · simp only [hd, if_true, hlt, decide_false, List.countP_cons, decide_true]
+        rw [List.count_cons_of_ne (by decide), ih]
+        omega
+    · simp only [hd, if_false, List.countP_cons, decide_false]
+      rw [List.count_cons_of_ne (by decide), ih]
+      simp
+
+/-! ### effect of a planned stream on the drop counter -/
+
+theorem planStream_counter (k : Nat) : ∀ (plan : List (Bool × Burst)) (w : World) (tk : Trx)
+    (w' : World) (outs : List (List Dgram)), w.trxs[k]? = some tk →
+    planStream k w plan = .ok (w', outs) →
+    w'.trxs[k]? = some { tk with dropAmount := tk.dropAmount - ((plan.map Prod.fst).count true : Nat) } ∧
+    outs.length = plan.length := by
+  intro plan
+  induction plan with
+  | nil =>
+    intro w tk w' outs hk h
+    simp only [planStream] at h
+    injection h with h; injection h with h1 h2
+    subst h1; subst h2
+    simp [hk]
+  | cons x plan ih =>
+    intro w tk w' outs hk h
+    obtain ⟨d, j, s, m⟩ := x
+    simp only [planStream] at h
+    split at h
+    · cases h
+    · rename_i w1 ds hstep
+      split at h
+      · cases h
+      · rename_i w2 outs' hrest
+        injection h with h; injection h with h1 h2
+        subst h1; subst h2
+        simp only [planStep, hk] at hstep
+        split at hstep
+        · rename_i src hj
+          cases d with
+          | true =>
+            simp only [if_true] at hstep
+            split at hstep
+            · injection hstep with hstep; injection hstep with h1 h2
+              subst h1
+              have hk' : (decDrop w k).trxs[k]? = some { tk with dropAmount := tk.dropAmount - 1 } := by
+                rw [decDrop_getElem?, if_pos rfl, hk]; rfl
+              obtain ⟨a, b⟩ := ih _ _ _ _ hk' hrest
+              refine ⟨?_, by simp only [List.length_cons, b]⟩
+              rw [a]
+              simp only [List.map_cons, List.count_cons_self]
+              congr 2
+              omega
+            · cases hstep
+          | false =>
+            simp only [Bool.false_eq_true, if_false] at hstep
+            obtain ⟨_, _, hdo, _⟩ := passOn_ok _ _ _ _ _ _ _ hstep
+            have hk' : w1.trxs[k]? = some tk := by rw [hdo.trxs]; exact hk
+            obtain ⟨a, b⟩ := ih _ _ _ _ hk' hrest
+            refine ⟨?_, by simp only [List.length_cons, b]⟩
+            rw [a]
+            simp only [List.map_cons]
+            rw [List.count_cons_of_ne (by decide)]
+        · cases hstep
+
 end OsmoVerif.World
